@@ -817,3 +817,389 @@ def gen_C15(rng, tier):
         c.quit()
         out.append(c.build())
     return out
+
+
+# ------------------------------------------------------------------------------------------------
+def gen_C11(rng, tier):
+    out = []
+    n = 260 if tier == "quick" else 3000
+    users = [b"", b"a", b"root", b"\xff\xfe", b"u" * 300, b"caf\xc3\xa9", b"\x01\x02", b" spaced user "]
+    for i in range(n):
+        layout = rng.choice(["41", "41", "41", "320"])
+        user = rng.choice(users) if rng.random() < 0.6 else bytes(rng.randint(1, 255) for _ in range(rng.randint(0, 40)))
+        tail = bytes(rng.getrandbits(8) for _ in range(rng.randint(0, 40)))
+        if layout == "41":
+            caps = (rng.getrandbits(32) | CAP_PROTOCOL_41) & ~CAP_SSL
+            if rng.random() < 0.3:
+                caps = 0xa200 | rng.choice([0, CAP_CONNECT_DB, CAP_PLUGIN_AUTH, CAP_LONG_PASSWORD])
+            hs = handshake41(user, caps, tail, maxps=rng.getrandbits(32), collation=rng.getrandbits(8))
+        else:
+            caps = rng.getrandbits(16) & ~CAP_PROTOCOL_41 & ~CAP_SSL
+            hs = handshake320(user, caps, rng.getrandbits(24), tail)
+        auth = rng.choice(["accept", "accept", "reject"])
+        tls_offered = rng.random() < 0.3
+        hs_seq = rng.choice([1, 1, 1, 0, 2, 7, 200, 254, 255])
+        c = Conv("C11-%05d" % i, mode=rng.choice(["lockstep", "pipelined", "pipelined"]), hs=hs, hs_seq=hs_seq, auth=auth, tls=tls_offered,
+                 meta={"layout": layout})
+        c.chunks, c.then = rand_chunks(rng)
+        # commands already pipelined behind the handshake
+        for j in range(rng.randint(0, 3)):
+            r = rng.random()
+            if r < 0.4:
+                c.query("SELECT %d" % j, [op_completed(j, 0)] if auth == "accept" else None)
+            elif r < 0.6:
+                c.ping()
+            elif r < 0.8:
+                c.prepare("P", prep_ok(1, [], [])) if auth == "accept" else c.cmd(com_prepare("P"))
+            else:
+                c.init_db("db", [op_init_ok()] if auth == "accept" else None)
+        if rng.random() < 0.6:
+            c.quit()
+        out.append(c.build())
+    # client asks for TLS from a shim that offers none (C18 part / C11 gate): refused before auth
+    for i in range(6 if tier == "quick" else 40):
+        c = Conv("C11-ssl%02d" % i, mode="pipelined", hs=ssl_request(), tls=False)
+        c.chunks, c.then = rand_chunks(rng)
+        c.raw([rng.getrandbits(8) for _ in range(rng.randint(0, 50))], reply=False)
+        out.append(c.build())
+    # truncated / malformed handshakes: error, never a callback
+    for i in range(30 if tier == "quick" else 300):
+        full = handshake41(b"root") if rng.random() < 0.7 else handshake320(b"root")
+        cut = rng.randint(0, len(full) - 1)
+        c = Conv("C11-cut%03d" % i, mode="pipelined", hs=full[:cut])
+        c.ping()
+        out.append(c.build())
+    return out
+
+
+def gen_C12(rng, tier):
+    out = []
+    n = 260 if tier == "quick" else 3000
+    for i in range(n):
+        mode = "lockstep" if i % 2 == 0 else "pipelined"
+        c = Conv("C12-%05d" % i, mode=mode, shim="default_init" if i % 17 == 3 else "program")
+        c.chunks, c.then = rand_chunks(rng)
+        if rng.random() < 0.3:
+            c.short_writes = [rng.choice([1, 2, 3, 5, 100]) for _ in range(rng.randint(1, 5))]
+        live = False
+        depth = rng.randint(1, 12 if tier == "quick" else 50)
+        for j in range(depth):
+            r = rng.random()
+            if r < 0.25:
+                c.query("Q%d" % j, rng.choice([[op_completed(1, 1)], rows_program(rng.randint(0, 5)),
+                                               [op_start([]), op_end_row(), op_finish()], [op_error("ER_NO", b"e")],
+                                               [op_complete_one(1, 1), op_start([col("a", T_LONG)]), op_write_row([v_int("i8", 1)]), op_finish()]]))
+            elif r < 0.4:
+                c.ping()
+            elif r < 0.55:
+                c.prepare("P%d" % j, prep_ok(5, [col("p", T_BLOB)], [col("c0", T_LONG)]))
+                live = True
+            elif r < 0.7 and live:
+                c.execute(5, [p_bytes(T_BLOB, b"xy")], rows_program(rng.randint(0, 3), True))
+            elif r < 0.78 and live:
+                c.cmd(com_long_data(5, 0, b"chunk"))
+            elif r < 0.84 and live:
+                c.cmd(com_close(5))
+                live = False
+            elif r < 0.9:
+                if c.shim == "default_init":
+                    c.cmd(com_query("USE d")) if rng.random() < 0.5 else c.cmd(com_init_db("d"))
+                else:
+                    c.query("USE d", [op_init_ok()]) if rng.random() < 0.5 else c.init_db("d", [op_init_err("ER_BAD_DB_ERROR")])
+            elif r < 0.95:
+                c.cmd(com_field_list())
+            else:
+                c.query("select @@version_comment")
+        if rng.random() < 0.7:
+            c.quit()
+        out.append(c.build())
+    return out
+
+
+def gen_C01(rng, tier):
+    """flat part: short streams under many chunkings (the 16-50 MiB part runs in TraceBig mode)"""
+    out = []
+    n = 200 if tier == "quick" else 2500
+    for i in range(n):
+        c = Conv("C01-%05d" % i, mode="pipelined")
+        ncmd = rng.randint(1, 6 if tier == "quick" else 30)
+        for j in range(ncmd):
+            r = rng.random()
+            ln = rng.choice([0, 1, 2, 3, 4, 5, 10, 100, 255, 256, 1000, 4090, 4091, 4092, 4096, 5000, 9000])
+            if ln > 300 and rng.random() < 0.6:
+                ln = rng.randint(0, 60)
+            body = bytes((k * 7 + j) % 95 + 32 for k in range(ln))
+            if r < 0.5:
+                c.query(b"Q" + body, [op_completed(j, 0)], seq0=rng.choice([0, 0, 1, 255]))
+            elif r < 0.7:
+                c.prepare(b"P" + body, prep_ok(j + 1, [col("p", T_BLOB)], []), seq0=rng.choice([0, 3]))
+                if rng.random() < 0.7:
+                    chunks = [bytes((k + m) % 256 for k in range(rng.choice([0, 1, 5, 300]))) for m in range(rng.randint(1, 3))]
+                    for ch in chunks:
+                        c.cmd(com_long_data(j + 1, 0, ch))
+                    c.execute(j + 1, [p_long(T_BLOB)], [op_completed(0, 0)])
+            elif r < 0.85:
+                c.init_db(b"d" + body[:40], [op_init_ok()])
+            else:
+                c.ping()
+        if rng.random() < 0.5:
+            c.quit()
+        # chunk schedule classes
+        total = sum(len(m["b"]) for m in c.msgs)
+        k = rng.random()
+        if k < 0.2:
+            c.chunks, c.then = [], 1
+        elif k < 0.4:
+            # cuts inside headers: one read ends after each of the 4 header bytes of some message
+            pos = 0
+            cuts = []
+            for m in c.msgs:
+                cuts.append(pos + rng.choice([1, 2, 3, 4]))
+                pos += len(m["b"])
+            sizes = []
+            prev = 0
+            for x in sorted(set(cuts)):
+                if x > prev:
+                    sizes.append(x - prev)
+                    prev = x
+            c.chunks, c.then = sizes, 0
+        elif k < 0.55:
+            c.chunks, c.then = [], 0   # one giant read (bounded by the buffer the server offers)
+        elif k < 0.7:
+            c.chunks, c.then = [rng.randint(1, 9) for _ in range(200)], rng.choice([1, 2, 0])
+        else:
+            c.chunks, c.then = rand_chunks(rng)
+        out.append(c.build())
+    # all 2^(L-1) chunkings of a short stream
+    L = 11 if tier == "quick" else 13
+    base = Conv("x", mode="pipelined", hs=False)
+    stream_msgs = [frame(com_query("ab"), 0), frame(com_ping(), 0)]
+    total = sum(len(x) for x in stream_msgs)
+    hs = frame(handshake41(b"r"), 1)
+    for mask in range(0, 1 << (total - 1), 1 if tier != "quick" else 3):
+        sizes = []
+        run = 1
+        for bit in range(total - 1):
+            if mask >> bit & 1:
+                sizes.append(run)
+                run = 1
+            else:
+                run += 1
+        sizes.append(run)
+        c = Conv("C01-all%05d" % mask, mode="pipelined", hs=False)
+        c.raw(hs, True)
+        for mwire in stream_msgs:
+            c.raw(mwire, True)
+        c.programs.append([op_completed(1, 1)])
+        c.chunks, c.then = [len(hs)] + sizes, 0
+        out.append(c.build())
+    return out
+
+
+# ------------------------------------------------------------------------------------------------
+# prepared statements
+PARAM_TYPES = INT_TYPES + [T_FLOAT, T_DOUBLE] + STR_TYPES + [T_DATE, T_DATETIME, T_TIMESTAMP, T_TIME]
+
+
+def rand_param(rng, ty=None, allow_null=True, forms=True):
+    ty = ty if ty is not None else rng.choice(PARAM_TYPES)
+    if allow_null and rng.random() < 0.12:
+        return p_null(ty, uns=ty in INT_TYPES and rng.random() < 0.5)
+    if ty in INT_TYPES:
+        uns = rng.random() < 0.5
+        w = INT_WIDTH[ty] * 8
+        x = rng.choice([0, 1, (1 << (w - 1)) - 1, 1 << (w - 1), (1 << w) - 1, rng.getrandbits(w)])
+        return p_int(ty, x, uns)
+    if ty == T_FLOAT:
+        return p_f32(rand_f32_bits(rng, finite=False))
+    if ty == T_DOUBLE:
+        return p_f64(rand_f64_bits(rng, finite=False))
+    if ty in STR_TYPES:
+        n = rng.choice([0, 1, 5, 20, 250, 251, 252, 300]) if rng.random() < 0.985 else rng.choice([65535, 65536])
+        data = rand_utf8(rng, n // 2) if rng.random() < 0.5 and n < 1000 else bytes((i * 13 + n) % 256 for i in range(n))
+        return p_bytes(ty, data)
+    if ty == T_DATE:
+        y, m, d = rand_date(rng)
+        form = rng.choice([4, 4, 0]) if forms else 4
+        return p_date(ty, y if form else 0, m if form else 0, d if form else 0, form=form)
+    if ty in (T_DATETIME, T_TIMESTAMP):
+        y, m, d = rand_date(rng)
+        h, mi, s = rand_time(rng)
+        form = rng.choice([0, 4, 7, 11]) if forms else rng.choice([7, 11])
+        us = rand_us(rng) if form == 11 else 0
+        if form == 11 and us == 0:
+            us = 1
+        return p_date(ty, y, m, d, h, mi, s, us, form=form)
+    if ty == T_TIME:
+        h, mi, s = rand_time(rng)
+        form = rng.choice([0, 8, 12])
+        us = rand_us(rng) if form == 12 else 0
+        if form == 12 and us == 0:
+            us = 999999
+        return p_time(rng.choice([0, 1, 34, 838, rng.randint(0, 16000)]) if form else 0, h if form else 0, mi if form else 0, s if form else 0, us, form=form)
+    raise ValueError(ty)
+
+
+def retype(rng, p):
+    """same bound type, fresh value"""
+    q = rand_param(rng, p['ty'], allow_null=True)
+    if p['ty'] in INT_TYPES:
+        q = dict(q, uns=p.get('uns', False))
+        if not q.get('null'):
+            w = INT_WIDTH[p['ty']]
+            q['enc'] = list(rng.getrandbits(8 * w).to_bytes(w, 'little'))
+    return q
+
+
+def gen_C08(rng, tier):
+    out = []
+    n = 150 if tier == "quick" else 2500
+    for i in range(n):
+        c = Conv("C08-%05d" % i, mode=rng.choice(["lockstep", "pipelined"]))
+        c.chunks, c.then = rand_chunks(rng)
+        for sidx in range(rng.randint(1, 3)):
+            np = rng.choice([0, 1, 2, 3, 7, 8, 9, 15, 16, 17, 33] + ([100, 300] if i % 10 == 0 else []))
+            params = [rand_param(rng) for _ in range(np)]
+            # all-NULL / no-NULL / single-NULL patterns now and then
+            pat = rng.random()
+            if pat < 0.1:
+                params = [p_null(p['ty'], p.get('uns', False)) for p in params]
+            elif pat < 0.2:
+                params = [rand_param(rng, p['ty'], allow_null=False) for p in params]
+            sid = sidx + 1
+            c.prepare("S%d" % sid, prep_ok(sid, [col("p%d" % k, p['ty'], F_UNSIGNED if p.get('uns') else 0) for k, p in enumerate(params)], []))
+            c.execute(sid, params, [op_completed(1, 0)], rebind=True)
+            if rng.random() < 0.5 and np > 0:
+                c.execute(sid, [rand_param(rng) for _ in range(np)], [op_completed(2, 0)], rebind=True)
+        c.ping()
+        c.quit()
+        out.append(c.build())
+    # every type code x unsigned flag x length form, one parameter each
+    k = 0
+    for ty in PARAM_TYPES:
+        for rep in range(2 if tier == "quick" else 12):
+            c = Conv("C08-t%03d-%d" % (ty, rep), mode="lockstep")
+            ps = [rand_param(rng, ty, allow_null=False) for _ in range(6)]
+            if ty in INT_TYPES:
+                ps = [dict(p, uns=(j % 2 == 0)) for j, p in enumerate(ps)]
+            c.prepare("S", prep_ok(1, [col("p", ty)] * len(ps), []))
+            c.execute(1, ps, [op_completed(0, 0)])
+            c.quit()
+            out.append(c.build())
+    return out
+
+
+def stmt_history(rng, c, nstmts, nops, p_close=0.08, p_long=0.0, p_reprepare=0.05, reuse=0.5, long_sizes=(0, 1, 5, 250, 300)):
+    """random history over a few statements; returns nothing, extends c"""
+    ids = [1, 2, 7, 2**32 - 1, 65536, 300][:nstmts]
+    st = {}   # id -> dict(types=[param descriptors of last bind] or None, np)
+
+    def do_prepare(sid):
+        np = rng.choice([0, 1, 2, 3, 4])
+        # keep long-data capable params (string family) frequent
+        tys = [rng.choice(PARAM_TYPES if rng.random() < 0.6 else [T_BLOB, T_VAR_STRING, T_LONG_BLOB]) for _ in range(np)]
+        c.prepare("S%d" % sid, prep_ok(sid, [col("p%d" % k, t) for k, t in enumerate(tys)], [col("r", T_LONG)]))
+        st[sid] = dict(np=np, tys=tys, bound=None, pend={})
+
+    for _ in range(nops):
+        live = [s for s in st]
+        r = rng.random()
+        if not live or r < 0.12 or (r < 0.12 + p_reprepare and live):
+            sid = rng.choice(ids) if rng.random() < 0.7 or not live else rng.choice(live)
+            if rng.random() < 0.1:
+                c.prepare("BAD", prep_err("ER_PARSE_ERROR"))
+            else:
+                do_prepare(sid)
+            continue
+        sid = rng.choice(live)
+        s = st[sid]
+        if r < 0.12 + p_reprepare + p_close:
+            c.cmd(com_close(sid))
+            del st[sid]
+            continue
+        if r < 0.12 + p_reprepare + p_close + p_long and s['np'] > 0:
+            strp = [k for k, t in enumerate(s['tys']) if t in STR_TYPES]
+            k = rng.choice(strp) if strp and rng.random() < 0.9 else rng.randrange(s['np'])
+            n = rng.choice(long_sizes)
+            data = bytes((i * 3 + k + n) % 256 for i in range(n))
+            c.cmd(com_long_data(sid, k, data))
+            s['pend'][k] = True
+            continue
+        # execute
+        must_bind = s['bound'] is None
+        rebind = must_bind or rng.random() > reuse
+        if rebind:
+            if rng.random() < 0.5:
+                s['tys'] = [rng.choice(PARAM_TYPES) if k not in s['pend'] else s['tys'][k] for k in range(s['np'])]
+            ps = [rand_param(rng, t) for t in s['tys']]
+        else:
+            ps = [retype(rng, p) for p in s['bound']]
+        for k in s['pend']:
+            ps[k] = dict(ps[k], long=True, null=False, enc=[])
+        c.execute(sid, ps, [op_completed(1, 0)], rebind=rebind)
+        if rebind:
+            s['bound'] = [dict(p, long=False) for p in ps]
+        s['pend'] = {}
+
+
+def gen_C16(rng, tier):
+    out = []
+    n = 160 if tier == "quick" else 2000
+    for i in range(n):
+        c = Conv("C16-%05d" % i, mode=rng.choice(["lockstep", "pipelined"]))
+        c.chunks, c.then = rand_chunks(rng)
+        stmt_history(rng, c, rng.randint(1, 4), rng.randint(4, 25 if tier == "quick" else 200), p_long=0.05, reuse=0.6)
+        c.ping()
+        c.quit()
+        out.append(c.build())
+    return out
+
+
+def gen_C17(rng, tier):
+    out = []
+    n = 160 if tier == "quick" else 2000
+    for i in range(n):
+        c = Conv("C17-%05d" % i, mode=rng.choice(["lockstep", "pipelined"]))
+        c.chunks, c.then = rand_chunks(rng)
+        stmt_history(rng, c, rng.randint(1, 4), rng.randint(5, 30 if tier == "quick" else 200), p_long=0.35, reuse=0.4,
+                     long_sizes=(0, 1, 5, 250, 300) if i % 8 else (0, 1, 70000))
+        c.ping()
+        c.quit()
+        out.append(c.build())
+    return out
+
+
+def gen_C10(rng, tier):
+    out = []
+    n = 200 if tier == "quick" else 2500
+    for i in range(n):
+        c = Conv("C10-%05d" % i, mode=rng.choice(["lockstep", "pipelined"]))
+        c.chunks, c.then = rand_chunks(rng)
+        stmt_history(rng, c, rng.randint(1, 5), rng.randint(3, 25 if tier == "quick" else 300), p_close=0.2, p_long=0.1, p_reprepare=0.15)
+        # endings that must kill the connection without reaching the shim
+        r = rng.random()
+        if r < 0.25:
+            c.cmd(com_close(4242))          # closing an unknown id: on_close, no reply
+            c.cmd(com_close(4242))
+            c.ping()
+            c.quit()
+        elif r < 0.45:
+            c.cmd(com_execute(999, []))      # never prepared
+            c.ping()
+        elif r < 0.6:
+            c.cmd(com_long_data(999, 0, b"x"), reply=False)
+            c.ping()
+        elif r < 0.75:
+            c.prepare("S", prep_ok(50, [], []))
+            c.cmd(com_close(50))
+            c.cmd(com_execute(50, []))       # closed
+            c.ping()
+        elif r < 0.85:
+            c.prepare("S", prep_err("ER_NO_SUCH_TABLE"))
+            c.cmd(com_execute(51, []))       # rejected at prepare time
+            c.ping()
+        else:
+            c.ping()
+            c.quit()
+        out.append(c.build())
+    return out
